@@ -65,7 +65,7 @@ CHECKS.update({
     'C10': dict(level=EX, engine='E3 CrossHair', design='3/C10',
                 technique='CrossHair path exploration of the real format() over a seeded slice of the verification grammar x 14 option sets with normal-form oracles on the re-lexed output',
                 text='explored, not proven: strip_whitespace / operator spacing / reindent normal forms and the two fixed points hold on every script of the slice.',
-                note='1/3389 (quick) or 1/211 (thorough) of 544 320 scripts per option set'),
+                note='1/7919 (quick) or 1/499 (thorough) of 544 320 scripts per option set'),
     'C11': dict(level=MC, engine='E1 two-copy + E2 + E3', design='3/C11',
                 technique='two-copy SMT queries over two symbolic texts (tokenizer model, z3); exhaustive comparison of the translated splitter\'s predicate tables over respellings; CrossHair on is_keyword and on parse() of respelled templates',
                 text='z3: two texts of <= 7(6)/9 characters that differ only in inter-token / intra-keyword whitespace characters or in keyword letter case have the same non-whitespace tokens; the translated splitter cannot distinguish respellings of a keyword (except the listed GO finding); tree shape, node classes and get_type are identical for 14 templates x 24 respellings.',
